@@ -27,7 +27,7 @@ theorem cancelled_stays (st st' : SState) (h1 : st'.cancelAt = st.cancelAt) (h2 
 /-- **C12 (a halted search reports halted), in terms of the search's own final poll.** For every game,
     window and starting state whatsoever: `alphaBetaSearch` returns `none` exactly if the search was not
     live at its end, i.e. iff its last poll (the `polls`-th one of the final state) reported "cancelled". -/
-theorem reports_halted (g : Game P) (ex : Explore) (le : LeafEval) (p : P) (d : Nat) (a b : Score) (st : SState) :
+theorem reports_halted (g : Game P) (ex : P → Explore) (le : LeafEval P) (p : P) (d : Nat) (a b : Score) (st : SState) :
     (alphaBetaSearch g ex le p d a b st).1 = none ↔ ¬ Live (alphaBetaSearch g ex le p d a b st).2 := by
   simp only [alphaBetaSearch, poll_eq]
   generalize alphabeta g ex le (g.ply p) d p _ _ _ = r
@@ -45,7 +45,7 @@ theorem reports_halted (g : Game P) (ex : Explore) (le : LeafEval) (p : P) (d : 
     search performs at least `k` polls (counting from `st.polls`, including the final one of
     `alphaBetaSearch`), the result is `none`: a score is never reported by a halted search. If it performs
     fewer than `k` polls it was never disturbed and reports exactly `V`. -/
-theorem reports_halted_at_on (g : Game P) (ex : Explore) (le : LeafEval) (hev : EvalOk g)
+theorem reports_halted_at_on (g : Game P) (ex : P → Explore) (le : LeafEval P) (hev : EvalOk g)
     {R : Nat → P → Prop} (hcl : Closed g ex R) (hh : HashOKOn g ex le R)
     (p : P) (hrf : RootFreeOn g R (g.ply p)) (d : Nat) (hd : leafGrade le + d ≤ 127) (hp : R d p)
     (st : SState) (hs : SoundOn g ex le R st.tt) (k : Nat) (hk : st.cancelAt = some k) :
@@ -74,7 +74,7 @@ theorem reports_halted_at_on (g : Game P) (ex : Explore) (le : LeafEval) (hev : 
 
 /-- The search polls at least twice (on entry and at the end of `alphaBetaSearch`), so a context that is
     already cancelled (`k ≤ st.polls + 1`) always yields `none`. -/
-theorem halted_before_start_on (g : Game P) (ex : Explore) (le : LeafEval) (hev : EvalOk g)
+theorem halted_before_start_on (g : Game P) (ex : P → Explore) (le : LeafEval P) (hev : EvalOk g)
     {R : Nat → P → Prop} (hcl : Closed g ex R) (hh : HashOKOn g ex le R)
     (p : P) (hrf : RootFreeOn g R (g.ply p)) (d : Nat) (hd : leafGrade le + d ≤ 127) (hp : R d p)
     (st : SState) (hs : SoundOn g ex le R st.tt) (k : Nat) (hk : st.cancelAt = some k) (hle : k ≤ st.polls + 1) :
@@ -90,7 +90,7 @@ theorem halted_before_start_on (g : Game P) (ex : Explore) (le : LeafEval) (hev 
     and whatever the window of graded-valid scores, the table after the run is sound on the region: every entry
     stored before the halt is a true value (stores only follow a poll that reported "not cancelled", and
     cancellation is monotone). -/
-theorem leaves_nothing_on (g : Game P) (ex : Explore) (le : LeafEval) (rootPly : Int) (hev : EvalOk g)
+theorem leaves_nothing_on (g : Game P) (ex : P → Explore) (le : LeafEval P) (rootPly : Int) (hev : EvalOk g)
     {R : Nat → P → Prop} (hcl : Closed g ex R)
     (hh : HashOKOn g ex le R) (hrf : RootFreeOn g R rootPly) (K d : Nat) (hK : leafGrade le ≤ K) (hKd : K + d ≤ 127)
     (p : P) (hp : R d p) (alpha beta : Score) (st : SState) (hs : SoundOn g ex le R st.tt)
@@ -105,7 +105,7 @@ theorem leaves_nothing_on (g : Game P) (ex : Explore) (le : LeafEval) (rootPly :
     its root, which is what it returns had the first search never run (same starting state `st`), and what
     the table-free search returns. `U` is a region containing the trees of both searches (e.g. their union,
     `Trees g ex [(p, d), (q, d2)]`). -/
-theorem next_search_exact_on (g : Game P) (ex : Explore) (le : LeafEval) (hev : EvalOk g)
+theorem next_search_exact_on (g : Game P) (ex : P → Explore) (le : LeafEval P) (hev : EvalOk g)
     {U : Nat → P → Prop} (hh : HashOKOn g ex le U)
     (p : P) (d : Nat) (hd : leafGrade le + d ≤ 127)
     (hpU : ∀ n x, Tree g ex p d n x → U n x) (hrf : RootFreeOn g (Tree g ex p d) (g.ply p))
@@ -134,7 +134,7 @@ theorem next_search_exact_on (g : Game P) (ex : Explore) (le : LeafEval) (hev : 
 
 /-! ## The global forms (corollaries: `R := Everywhere`; see the remark in C11) -/
 
-theorem reports_halted_at (g : Game P) (ex : Explore) (le : LeafEval) (hev : EvalOk g) (hh : HashOK g ex le)
+theorem reports_halted_at (g : Game P) (ex : P → Explore) (le : LeafEval P) (hev : EvalOk g) (hh : HashOK g ex le)
     (p : P) (hrf : RootFree g (g.ply p)) (d : Nat) (hd : leafGrade le + d ≤ 127)
     (st : SState) (hs : Sound g ex le st.tt) (k : Nat) (hk : st.cancelAt = some k) :
     (k ≤ (alphaBetaSearch g ex le p d invalidScore invalidScore st).2.polls →
@@ -145,14 +145,14 @@ theorem reports_halted_at (g : Game P) (ex : Explore) (le : LeafEval) (hev : Eva
   reports_halted_at_on g ex le hev (closed_everywhere g ex) (hh.on _) p (hrf.on _) d hd trivial st
     (sound_iff_on.1 hs) k hk
 
-theorem halted_before_start (g : Game P) (ex : Explore) (le : LeafEval) (hev : EvalOk g) (hh : HashOK g ex le)
+theorem halted_before_start (g : Game P) (ex : P → Explore) (le : LeafEval P) (hev : EvalOk g) (hh : HashOK g ex le)
     (p : P) (hrf : RootFree g (g.ply p)) (d : Nat) (hd : leafGrade le + d ≤ 127)
     (st : SState) (hs : Sound g ex le st.tt) (k : Nat) (hk : st.cancelAt = some k) (hle : k ≤ st.polls + 1) :
     (alphaBetaSearch g ex le p d invalidScore invalidScore st).1 = none :=
   halted_before_start_on g ex le hev (closed_everywhere g ex) (hh.on _) p (hrf.on _) d hd trivial st
     (sound_iff_on.1 hs) k hk hle
 
-theorem leaves_nothing (g : Game P) (ex : Explore) (le : LeafEval) (rootPly : Int) (hev : EvalOk g)
+theorem leaves_nothing (g : Game P) (ex : P → Explore) (le : LeafEval P) (rootPly : Int) (hev : EvalOk g)
     (hh : HashOK g ex le) (hrf : RootFree g rootPly) (K d : Nat) (hK : leafGrade le ≤ K) (hKd : K + d ≤ 127)
     (p : P) (alpha beta : Score) (st : SState) (hs : Sound g ex le st.tt)
     (ha : okN (K + d) alpha) (hb : okN (K + d) beta) (k : Nat) :
@@ -160,7 +160,7 @@ theorem leaves_nothing (g : Game P) (ex : Explore) (le : LeafEval) (rootPly : In
   sound_iff_on.2 (leaves_nothing_on g ex le rootPly hev (closed_everywhere g ex) (hh.on _) (hrf.on _) K d hK hKd p
     trivial alpha beta st (sound_iff_on.1 hs) ha hb k)
 
-theorem next_search_exact (g : Game P) (ex : Explore) (le : LeafEval) (hev : EvalOk g) (hh : HashOK g ex le)
+theorem next_search_exact (g : Game P) (ex : P → Explore) (le : LeafEval P) (hev : EvalOk g) (hh : HashOK g ex le)
     (p : P) (hrf : RootFree g (g.ply p)) (d : Nat) (hd : leafGrade le + d ≤ 127)
     (q : P) (hrfq : RootFree g (g.ply q)) (d2 : Nat) (hd2 : leafGrade le + d2 ≤ 127)
     (st : SState) (hs : Sound g ex le st.tt) (k : Nat) :
@@ -235,41 +235,41 @@ set_option maxRecDepth 100000 in
 /-- `reports_halted_at_on`: halted at the 40th poll the search reports `none`; halted "at the 50th" it is never
     disturbed and reports the reference value. -/
 example :
-    (alphaBetaSearch gX fullExploration .static wS 2 invalidScore invalidScore { st4k with cancelAt := some 40 }).1 = none ∧
-    ∃ n pv, (alphaBetaSearch gX fullExploration .static wS 2 invalidScore invalidScore
-        { st4k with cancelAt := some 50 }).1 = some ⟨n, V gX fullExploration .static (gX.ply wS) 2 wS, pv⟩ ∧
-      Principal gX fullExploration .static (gX.ply wS) 2 wS pv :=
-  ⟨(reports_halted_at_on gX fullExploration .static gX_evalOk (tree_closed _ _ wS 2) (wS_hashOK _) wS
+    (alphaBetaSearch gX fullX .static wS 2 invalidScore invalidScore { st4k with cancelAt := some 40 }).1 = none ∧
+    ∃ n pv, (alphaBetaSearch gX fullX .static wS 2 invalidScore invalidScore
+        { st4k with cancelAt := some 50 }).1 = some ⟨n, V gX fullX .static (gX.ply wS) 2 wS, pv⟩ ∧
+      Principal gX fullX .static (gX.ply wS) 2 wS pv :=
+  ⟨(reports_halted_at_on gX fullX .static gX_evalOk (tree_closed _ _ wS 2) (wS_hashOK _) wS
       (wS_noDraw.rootFreeOn _) 2 (by decide) (tree_root _ _ _ _) { st4k with cancelAt := some 40 }
       (fresh_sound_on _ _ _ _ 4096 0) 40 rfl).1 (by decide +kernel),
-   (reports_halted_at_on gX fullExploration .static gX_evalOk (tree_closed _ _ wS 2) (wS_hashOK _) wS
+   (reports_halted_at_on gX fullX .static gX_evalOk (tree_closed _ _ wS 2) (wS_hashOK _) wS
       (wS_noDraw.rootFreeOn _) 2 (by decide) (tree_root _ _ _ _) { st4k with cancelAt := some 50 }
       (fresh_sound_on _ _ _ _ 4096 0) 50 rfl).2 (by decide +kernel)⟩
 
 /-- `halted_before_start_on`: a context that is already cancelled. -/
 example :
-    (alphaBetaSearch gX fullExploration (.quiescence capX 64) wS 2 invalidScore invalidScore
+    (alphaBetaSearch gX fullX (.quiescence capX 64) wS 2 invalidScore invalidScore
       { st4k with cancelAt := some 1 }).1 = none :=
-  halted_before_start_on gX fullExploration _ gX_evalOk (tree_closed _ _ wS 2) (wS_hashOK _) wS
+  halted_before_start_on gX fullX _ gX_evalOk (tree_closed _ _ wS 2) (wS_hashOK _) wS
     (wS_noDraw.rootFreeOn _) 2 (by decide) (tree_root _ _ _ _) { st4k with cancelAt := some 1 }
     (fresh_sound_on _ _ _ _ 4096 0) 1 rfl (by decide)
 
 /-- `leaves_nothing_on`: halted at any instant, any window - here (mated in 2, +5) - the table stays sound. -/
-example (k : Nat) : SoundOn gX fullExploration .static (Tree gX fullExploration wS 2)
-    (alphabeta gX fullExploration .static 1 2 wS (mateInXScore (-2)) (heuristicScore 5)
+example (k : Nat) : SoundOn gX fullX .static (Tree gX fullX wS 2)
+    (alphabeta gX fullX .static 1 2 wS (mateInXScore (-2)) (heuristicScore 5)
       { st4k with cancelAt := some k }).2.2.tt :=
-  leaves_nothing_on gX fullExploration .static 1 gX_evalOk (tree_closed _ _ wS 2) (wS_hashOK _)
+  leaves_nothing_on gX fullX .static 1 gX_evalOk (tree_closed _ _ wS 2) (wS_hashOK _)
     (wS_noDraw.rootFreeOn 1) 0 2 (by decide) (by decide) wS (tree_root _ _ _ _) _ _ st4k
     (fresh_sound_on _ _ _ _ 4096 0) (by decide) (by decide) k
 
 /-- `next_search_exact_on`: halt the depth-2 search of `wS` at any instant `k`, then search the successor position
     `w1` (depth 1) on the table left behind: exact. The region is the union of the trees of `seqX`. -/
 example (k : Nat) :
-    (alphaBetaSearch gX fullExploration .static w1 1 invalidScore invalidScore
-      { (alphaBetaSearch gX fullExploration .static wS 2 invalidScore invalidScore
+    (alphaBetaSearch gX fullX .static w1 1 invalidScore invalidScore
+      { (alphaBetaSearch gX fullX .static wS 2 invalidScore invalidScore
           { st4k with cancelAt := some k }).2 with cancelAt := none }).1.map (·.score) =
-    some (V gX fullExploration .static (gX.ply w1) 1 w1) :=
-  (next_search_exact_on gX fullExploration .static gX_evalOk (seqX_hashOK _)
+    some (V gX fullX .static (gX.ply w1) 1 w1) :=
+  (next_search_exact_on gX fullX .static gX_evalOk (seqX_hashOK _)
     wS 2 (by decide) (fun n x h => ⟨(wS, 2), by simp [seqX], h⟩)
     ((seqX_noDraw.mono (fun n x h => ⟨(wS, 2), by simp [seqX], h⟩)).rootFreeOn _)
     w1 1 (by decide) (fun n x h => ⟨(w1, 1), by simp [seqX], h⟩)
@@ -280,9 +280,9 @@ set_option maxRecDepth 100000 in
 /-- What actually happens: halted at the 40th poll the search has already stored two entries; the search of `wS`
     run next on that table reports the same score as on an empty table. -/
 example :
-    (alphaBetaSearch gX fullExploration .static wS 2 invalidScore invalidScore { st4k with cancelAt := some 40 }).2.tt.used = 2 ∧
-    (alphaBetaSearch gX fullExploration .static wS 2 invalidScore invalidScore
-      { (alphaBetaSearch gX fullExploration .static wS 2 invalidScore invalidScore
+    (alphaBetaSearch gX fullX .static wS 2 invalidScore invalidScore { st4k with cancelAt := some 40 }).2.tt.used = 2 ∧
+    (alphaBetaSearch gX fullX .static wS 2 invalidScore invalidScore
+      { (alphaBetaSearch gX fullX .static wS 2 invalidScore invalidScore
           { st4k with cancelAt := some 40 }).2 with cancelAt := none }).1.map (·.score) = some zeroScore := by
   decide +kernel
 
